@@ -22,6 +22,29 @@ impl Instant {
     pub fn as_nanos(&self) -> u64 {
         self.0
     }
+    pub fn checked_duration_since(&self, earlier: Instant) -> Option<Duration> {
+        self.0.checked_sub(earlier.0).map(Duration::from_nanos)
+    }
+    pub fn saturating_duration_since(&self, earlier: Instant) -> Duration {
+        Duration::from_nanos(self.0.saturating_sub(earlier.0))
+    }
+    pub fn checked_add(&self, d: Duration) -> Option<Instant> {
+        self.0.checked_add(d.as_nanos() as u64).map(Instant)
+    }
+    pub fn checked_sub(&self, d: Duration) -> Option<Instant> {
+        self.0.checked_sub(d.as_nanos() as u64).map(Instant)
+    }
+}
+
+impl std::ops::AddAssign<Duration> for Instant {
+    fn add_assign(&mut self, d: Duration) {
+        self.0 = self.0.saturating_add(d.as_nanos() as u64);
+    }
+}
+impl std::ops::SubAssign<Duration> for Instant {
+    fn sub_assign(&mut self, d: Duration) {
+        self.0 = self.0.saturating_sub(d.as_nanos() as u64);
+    }
 }
 
 impl Add<Duration> for Instant {
